@@ -241,6 +241,10 @@ func TestC30(t *testing.T) {
 		case g.stalled:
 			m.Count("outcome:froze(legal)", 1)
 			m.Count("froze:"+opName[ed.op], 1)
+			if ed.op == opInject || ed.op == opDup {
+				detail["dump"] = trimTo(g.dump, 12000)
+				m.Note(fmt.Sprintf("DIAG unexpected freeze: %v", detail))
+			}
 		default:
 			m.Count("outcome:failed", 1)
 			m.Count("receiver_error:"+errClass(recvErr), 1)
@@ -287,26 +291,38 @@ func TestC30(t *testing.T) {
 					return
 				}
 				go ssh.DiscardRequests(rq)
-				extra := 0
-				for it := 0; it < 60 && extra < 2; it++ {
+				pingpong := func() bool {
 					out := mon.Bytes(r, 700)
 					if _, err := ch.Write(out); err != nil {
 						workErr = "write: " + err.Error()
-						return
+						return false
 					}
 					in := make([]byte, len(out))
 					if _, err := io.ReadFull(ch, in); err != nil {
 						workErr = "read: " + err.Error()
-						return
+						return false
 					}
 					if !bytes.Equal(in, out) {
 						workErr = "echo differs"
-						return
+						return false
 					}
-					cw, cr := g.tapC.counts()
-					sw, sr := g.tapS.counts()
-					if cw >= 3 && cr >= 3 && sw >= 3 && sr >= 3 {
-						extra++
+					return true
+				}
+				for round := 1; round <= 2; round++ {
+					// 2100 bytes each way: both sides cross RekeyThreshold 1024 and request a
+					// re-exchange; then park (no clock) until both directions of both
+					// endpoints have seen the NEWKEYS of that re-exchange
+					for k := 0; k < 3; k++ {
+						if !pingpong() {
+							return
+						}
+					}
+					g.tapC.waitNewKeys(1 + round)
+					g.tapS.waitNewKeys(1 + round)
+				}
+				for k := 0; k < 2; k++ { // packets after the last NEWKEYS in both directions
+					if !pingpong() {
+						return
 					}
 				}
 				ch.Close()
@@ -333,7 +349,7 @@ func TestC30(t *testing.T) {
 			m.Count("seq_conn_with_2_rekeys", 1)
 			m.Count("seq_conn_with_2_rekeys:"+c.fam.Short, 1)
 		} else if workErr == "" {
-			m.Inconclusive(fmt.Sprintf("seq connection %s: only %d/%d/%d/%d NEWKEYS after 60 round trips", label, tc.nkW, tc.nkR, ts.nkW, ts.nkR))
+			m.Inconclusive(fmt.Sprintf("seq connection %s: only %d/%d/%d/%d NEWKEYS", label, tc.nkW, tc.nkR, ts.nkW, ts.nkR))
 		} else {
 			m.Inconclusive("seq connection " + label + " failed: " + workErr)
 		}
@@ -445,6 +461,10 @@ func TestC30(t *testing.T) {
 			"position": c.pos, "before": before, "phase": phase, "go_constructor_err": errStr(pr.goErr), "go_story_err": errStr(pr.goRunErr), "go_step": pr.goStep,
 			"peer_err": errStr(pr.peerErr), "peer_step": pr.peerStep, "frozen": pr.stalled, "peer_sent": typeNames(pr.peer.Sent), "peer_received": typeNames(pr.peer.Recv),
 			"exchanges": len(pr.peer.Kexes)}
+		if pr.abandoned {
+			m.Count("nonstrict_party_blocked_after_close:"+c.kind, 1)
+			detail["party_blocked_after_all_connections_closed"] = true
+		}
 		if c.kind == "UNIMPLEMENTED" {
 			// recorded, not judged
 			out := "worked"
